@@ -84,6 +84,23 @@ Definition srcuni (L : list route) : Prop :=
 Definition btuni (L : list route) : Prop :=
   forall x y q, In x L -> In y L -> has_pat q x = true -> has_pat q y = true -> rt_bt x = rt_bt y.
 
+(** the wildcard names of routes with the same pattern are compatible *)
+Definition kcompat (x y : route) : bool := keys_compat (rt_path x) (rt_path y).
+Definition keyuni (L : list route) : Prop := forall x y, In x L -> In y L -> kcompat x y = true.
+
+Lemma kcompat_sym x y : kcompat x y = kcompat y x.
+Proof. apply keys_compat_sym. Qed.
+
+Lemma kcompat_refl x : kcompat x x = true.
+Proof. apply keys_compat_refl. Qed.
+
+Lemma kcompat_other_pat x v p : rpat v = Some p -> has_pat p x = false -> kcompat x v = true.
+Proof.
+  intros Ev Hx. apply keys_compat_diff. fold (rpat x) (rpat v). rewrite Ev.
+  destruct (rpat x) as [px|] eqn:Ex; [left | right; reflexivity].
+  intro E. inversion E; subst px. unfold has_pat in Hx. rewrite Ex, pat_eqb_refl in Hx. discriminate.
+Qed.
+
 Lemma ReprV_nil : ReprV [] [].
 Proof. split; simpl; try tauto; try reflexivity. intros q n H. discriminate. Qed.
 
@@ -120,16 +137,29 @@ Qed.
 
 Lemma add1_spec d L v : ReprV d L -> srcuni L ->
   match m_add1 d v with
-  | inl d' => rpat v <> None /\ ReprV d' (L ++ [v]) /\ srcuni (L ++ [v])
+  | inl d' => rpat v <> None /\ ReprV d' (L ++ [v]) /\ srcuni (L ++ [v]) /\ (forall x, In x L -> kcompat x v = true)
   | inr _ => rpat v = None \/
-             exists x q, In x L /\ has_pat q x = true /\ has_pat q v = true /\ rt_src x <> rt_src v
+             (exists x q, In x L /\ has_pat q x = true /\ has_pat q v = true /\ rt_src x <> rt_src v) \/
+             (exists x, In x L /\ kcompat x v = false)
   end.
 Proof.
   intros R U. unfold m_add1. fold (rpat v). destruct (rpat v) as [p|] eqn:EP; [|left; reflexivity].
+  rewrite (rv_vals _ _ R).
+  destruct (keys_fit (at_q p L) v) eqn:KF.
+  2:{ right. right. unfold keys_fit in KF.
+      assert (Hex : existsb (fun x => negb (keys_compat (rt_path x) (rt_path v))) (at_q p L) = true).
+      { clear -KF. induction (at_q p L) as [|a l IH]; simpl in *; [discriminate|].
+        destruct (keys_compat (rt_path a) (rt_path v)); simpl in *; [apply IH; exact KF | reflexivity]. }
+      apply existsb_exists in Hex as (x & Hx & Hc). apply in_at_q in Hx as [Hx _].
+      exists x. split; [exact Hx|]. apply negb_true_iff in Hc. exact Hc. }
+  assert (Hk : forall x, In x L -> kcompat x v = true).
+  { intros x Hx. destruct (has_pat p x) eqn:Hp.
+    - unfold keys_fit in KF. rewrite forallb_forall in KF. apply KF. apply in_at_q. tauto.
+    - apply (kcompat_other_pat x v p EP Hp). }
   pose proof (add_spec d p v (rt_bt v) (rv_sorted _ _ R)) as A.
-  rewrite (rv_vals _ _ R) in A.
+  unfold vals_at in A. fold (vals_at d p) in A. rewrite (rv_vals _ _ R) in A.
   destruct (add d p v (rt_bt v)) as [d'|].
-  - destruct A as (CA & S' & _ & G). split; [discriminate|]. split.
+  - destruct A as (CA & S' & _ & G). split; [discriminate|]. split; [|split; [|exact Hk]].
     + split.
       * exact S'.
       * intro q. unfold vals_at. rewrite G. rewrite at_q_app. simpl. rewrite (has_pat_self v p EP q).
@@ -153,7 +183,7 @@ Proof.
       * apply (Hv x q); assumption.
       * symmetry. apply (Hv y q); assumption.
       * reflexivity.
-  - right. destruct (at_q p L) as [|h t] eqn:EA; [discriminate|].
+  - right. left. destruct (at_q p L) as [|h t] eqn:EA; [discriminate|].
     simpl in A. apply Nat.eqb_neq in A.
     assert (Hh : In h L /\ has_pat p h = true) by (apply in_at_q; rewrite EA; left; reflexivity).
     exists h, p. split; [tauto|]. split; [tauto|]. split; [apply has_pat_rpat; exact EP | exact A].
@@ -163,6 +193,7 @@ Lemma add1_flag d L v d' : ReprV d L -> ReprF d -> m_add1 d v = inl d' -> btuni 
 Proof.
   intros R F E B. unfold m_add1 in E. fold (rpat v) in E.
   destruct (rpat v) as [p|] eqn:EP; [|discriminate].
+  destruct (keys_fit (vals_at d p) v); [|discriminate].
   pose proof (add_spec d p v (rt_bt v) (rv_sorted _ _ R)) as A.
   destruct (add d p v (rt_bt v)) as [d1|]; [|discriminate]. inversion E; subst d1.
   destruct A as (_ & _ & _ & G).
